@@ -1295,6 +1295,310 @@ func c08GuardedSubtractions(c *Ctx) {
 // subExceptions: subtractions on the parse side that need no guard, with the reason.
 var subExceptions = map[string]string{}
 
+// C17.13: Conn.run has one way out: every return passes handleCloseError (which closes the stream maps and the datagram
+// queue with the cause, removes or replaces the routing entries and closes the connection ID manager), and the send
+// queue's goroutine is started before the tail can wait for it (sendQueue.Close blocks until Run has returned).
+func c17RunSingleExit(c *Ctx) {
+	const R = "C17.13"
+	f := c.fn("", "Conn", "run")
+	hce := c.obj("", "Conn", "handleCloseError")
+	c.Floor(R, "handleCloseError calls in Conn.run", countInstr(f, CallsTo(hce)), 1)
+	c.cut(R, "exit:every return of Conn.run passes handleCloseError", &Cut{Fn: f, Target: isReturn, Barrier: CallsTo(hce), NoInline: true},
+		"an exit that skips the close path leaves the connection's entries in the transport's routing table, its streams open and its timer armed")
+	sqClose := c.obj("", "sender", "Close")
+	sqRun := c.obj("", "sender", "Run")
+	startsRun := func(in ssa.Instruction) bool {
+		g, ok := in.(*ssa.Go)
+		if !ok {
+			return false
+		}
+		var body *ssa.Function
+		switch v := g.Call.Value.(type) {
+		case *ssa.MakeClosure:
+			body, _ = v.Fn.(*ssa.Function)
+		case *ssa.Function:
+			body = v
+		}
+		if body == nil {
+			return g.Call.IsInvoke() && g.Call.Method == sqRun
+		}
+		return countInstr(body, CallsTo(sqRun)) > 0
+	}
+	c.Floor(R, "go statements that run the send queue", countInstr(f, startsRun), 1)
+	c.cut(R, "order:the send queue runs before run() can wait for it to stop", &Cut{Fn: f, Target: CallsTo(sqClose), Barrier: startsRun, NoInline: true},
+		"sendQueue.Close waits for Run to return: reached without Run ever started it blocks the connection's goroutine forever")
+}
+
+// C17.14: a datagram is accepted for sending only after the queue has looked at its closed channel: after the
+// connection ended, SendDatagram returns the recorded cause instead of queueing a datagram that is never sent.
+func c17NoDatagramAfterClose(c *Ctx) {
+	const R = "C17.14"
+	f := c.fn("", "datagramQueue", "Add")
+	closed := c.fld("", "datagramQueue", "closed")
+	sq := c.fld("", "datagramQueue", "sendQueue")
+	accepts := func(in ssa.Instruction) bool {
+		cl, ok := in.(*ssa.Call)
+		if !ok {
+			return false
+		}
+		sc := cl.Call.StaticCallee()
+		if sc == nil || sc.Name() != "PushBack" || len(cl.Call.Args) == 0 {
+			return false
+		}
+		fa, ok := cl.Call.Args[0].(*ssa.FieldAddr)
+		return ok && fieldOfAddr(fa) == sq
+	}
+	looksAtClosed := func(in ssa.Instruction) bool {
+		switch x := in.(type) {
+		case *ssa.Select:
+			for _, st := range x.States {
+				if st.Dir == types.RecvOnly && loadsPath(st.Chan, closed) {
+					return true
+				}
+			}
+		case *ssa.UnOp:
+			return x.Op == token.ARROW && loadsPath(x.X, closed)
+		}
+		return false
+	}
+	c.Floor(R, "send-queue pushes in datagramQueue.Add", countInstr(f, accepts), 1)
+	c.cut(R, "closed:a datagram is queued only after the closed channel was consulted", &Cut{Fn: f, Target: accepts, Barrier: looksAtClosed},
+		"SendDatagram on a closed connection reports success and drops the datagram")
+}
+
+func isEmptyStringConst(v ssa.Value) bool {
+	k, ok := v.(*ssa.Const)
+	if !ok || k.Value == nil || k.Value.Kind() != constant.String {
+		return false
+	}
+	return constant.StringVal(k.Value) == ""
+}
+
+// C19.8: "was this field seen before in this section" is not decided by whether the value stored for it is empty. An
+// empty value is a value: with emptiness as the not-seen-yet marker, a first occurrence with an empty value hides a
+// second one (duplicate pseudo-header accepted, second Content-Length wins unchecked).
+func c19NoEmptinessAsSeenMarker(c *Ctx) {
+	const R = "C19.8"
+	f := c.fn(h3, "", "parseHeaders")
+	var decode ssa.Instruction
+	eachInstr(f, func(in ssa.Instruction) {
+		if cl, ok := in.(*ssa.Call); ok {
+			if prm, isP := cl.Call.Value.(*ssa.Parameter); isP && prm.Name() == "decodeFn" {
+				decode = in
+			}
+		}
+	})
+	if decode == nil {
+		c.Bad(R, "loop:decodeFn call in parseHeaders", c.P.Pos(f.Pos()), "the decode loop was not found")
+		return
+	}
+	hdrT := c.named(h3, "header")
+	n := 0
+	eachInstr(f, func(in ssa.Instruction) {
+		bo, ok := in.(*ssa.BinOp)
+		if !ok || (bo.Op != token.EQL && bo.Op != token.NEQ) {
+			return
+		}
+		var other ssa.Value
+		switch {
+		case isEmptyStringConst(bo.Y):
+			other = bo.X
+		case isEmptyStringConst(bo.X):
+			other = bo.Y
+		default:
+			return
+		}
+		// inside the decode loop only
+		if !(instrReaches(in, decode) && instrReaches(decode, in)) {
+			return
+		}
+		// what is compared: a field of the header being built, or a string carried around the loop (a φ)
+		what := ""
+		if fl, _ := loadedField(stripConv(other)); fl != nil {
+			if st, ok := hdrT.Type().Underlying().(*types.Struct); ok {
+				for i := 0; i < st.NumFields(); i++ {
+					if st.Field(i) == fl {
+						what = "header." + fl.Name()
+					}
+				}
+			}
+		} else if _, isPhi := stripConv(other).(*ssa.Phi); isPhi {
+			what = "a string carried around the decode loop"
+		}
+		if what == "" {
+			return
+		}
+		n++
+		c.Bad(R, fmt.Sprintf("seen-marker:%s compared with \"\" inside the decode loop#%d", what, n), c.P.InstrPos(in),
+			"emptiness of the stored value is used as the not-seen-yet marker: a first occurrence with an empty value hides the second one")
+	})
+	if n == 0 {
+		c.OK(R, "seen-marker:no stored value is compared with \"\" inside the decode loop", c.P.Pos(f.Pos()), "duplicates are detected with flags, not with the emptiness of the first value")
+	}
+}
+
+// C19.9: the request writer classifies a request as Extended CONNECT (and emits :protocol with req.Proto) only for a
+// non-empty protocol: the parser decides the same question by `:protocol` being non-empty, so an Extended CONNECT with an
+// empty protocol is written as one thing and parsed as another (and rejected).
+func c19ExtendedConnectAgreement(c *Ctx) {
+	const R = "C19.9"
+	f := c.fn(h3, "", "isExtendedConnectRequest")
+	proto := c.fld("net/http", "Request", "Proto")
+	method := c.fld("net/http", "Request", "Method")
+	n := 0
+	eachInstr(f, func(in ssa.Instruction) {
+		r, ok := in.(*ssa.Return)
+		if !ok {
+			return
+		}
+		n++
+		rs := retResults(r)
+		if len(rs) != 1 {
+			return
+		}
+		// the blocks from which a possibly-true value flows into the result
+		var srcs []*ssa.BasicBlock
+		if ph, isPhi := rs[0].(*ssa.Phi); isPhi {
+			for i, e := range ph.Edges {
+				if isConstBool(e, false) {
+					continue
+				}
+				srcs = append(srcs, ph.Block().Preds[i])
+			}
+		} else if !isConstBool(rs[0], false) {
+			srcs = append(srcs, r.Block())
+		}
+		okProto, okMethod := len(srcs) > 0, len(srcs) > 0
+		for _, b := range srcs {
+			if !dominatedByEdge(b, Rel{Op: token.NEQ, X: Load(proto), Y: isEmptyStringConst}, false) {
+				okProto = false
+			}
+			if !dominatedByEdge(b, Rel{Op: token.EQL, X: Load(method), Y: func(v ssa.Value) bool {
+				k, ok := v.(*ssa.Const)
+				return ok && k.Value != nil && k.Value.Kind() == constant.String && constant.StringVal(k.Value) == "CONNECT"
+			}}, false) {
+				okMethod = false
+			}
+		}
+		c.Check(okProto, R, "agree:Extended CONNECT only for a non-empty protocol", c.P.InstrPos(in), "the parser treats a CONNECT as extended iff :protocol is non-empty")
+		c.Check(okMethod, R, "agree:Extended CONNECT only for CONNECT", c.P.InstrPos(in), "only CONNECT requests carry :protocol")
+	})
+	c.Floor(R, "returns of isExtendedConnectRequest", n, 1)
+}
+
+// selectCaseBlock: the block control reaches when select `sel` chose state k (nil if the lowering is not recognised).
+func selectCaseBlock(sel *ssa.Select, k int) *ssa.BasicBlock {
+	rs := sel.Referrers()
+	if rs == nil {
+		return nil
+	}
+	for _, r := range *rs {
+		ex, ok := r.(*ssa.Extract)
+		if !ok || ex.Index != 0 {
+			continue
+		}
+		ers := ex.Referrers()
+		if ers == nil {
+			continue
+		}
+		for _, er := range *ers {
+			bo, ok := er.(*ssa.BinOp)
+			if !ok || bo.Op != token.EQL {
+				continue
+			}
+			kv, isK := constInt64Of(bo.Y)
+			if !isK || int(kv) != k {
+				continue
+			}
+			brs := bo.Referrers()
+			if brs == nil {
+				continue
+			}
+			for _, br := range *brs {
+				if ifi, ok := br.(*ssa.If); ok {
+					return ifi.Block().Succs[0]
+				}
+			}
+		}
+	}
+	return nil
+}
+
+// C17.15: a connection the server has taken on leaves handleNewConn queued for Accept, already dead, or explicitly
+// refused. In particular, when the listener is closed while the connection is still handshaking (the errorChan case of
+// both waits, early and non-early listener), the connection is closed with CONNECTION_REFUSED — otherwise it lives on,
+// un-acceptable, until its idle timeout, and the client's dial against a closed listener succeeds.
+func c17ServerRefusesOnClose(c *Ctx) {
+	const R = "C17.15"
+	f := c.fn("", "baseServer", "handleNewConn")
+	errorChan := c.fld("", "baseServer", "errorChan")
+	refuse := c.obj("", "Conn", "closeWithTransportError")
+	n := 0
+	eachInstr(f, func(in ssa.Instruction) {
+		sel, ok := in.(*ssa.Select)
+		if !ok || !sel.Blocking {
+			return
+		}
+		for k, st := range sel.States {
+			if st.Dir != types.RecvOnly || !loadsPath(st.Chan, errorChan) {
+				continue
+			}
+			n++
+			b := selectCaseBlock(sel, k)
+			if b == nil {
+				c.Bad(R, fmt.Sprintf("refuse:listener closed while waiting#%d", n), c.P.InstrPos(in), "the case block of the errorChan receive was not found")
+				continue
+			}
+			c.cut(R, fmt.Sprintf("refuse:listener closed while waiting#%d → CONNECTION_REFUSED", n), &Cut{Fn: f, StartBlocks: []*ssa.BasicBlock{b}, Target: isReturn, Barrier: CallsTo(refuse)},
+				"the handshaking connection of a closed listener is refused, not left to its idle timeout")
+		}
+	})
+	c.Floor(R, "waits on errorChan in handleNewConn", n, 2)
+	connQueue := c.fld("", "baseServer", "connQueue")
+	// the hand-over to Accept: a full queue refuses the connection
+	eachInstr(f, func(in ssa.Instruction) {
+		sel, ok := in.(*ssa.Select)
+		if !ok || sel.Blocking {
+			return
+		}
+		for _, st := range sel.States {
+			if st.Dir == types.SendOnly && loadsPath(st.Chan, connQueue) {
+				// default branch: index -1
+				if b := selectCaseBlock(sel, -1); b != nil {
+					c.cut(R, "refuse:accept queue full → CONNECTION_REFUSED", &Cut{Fn: f, StartBlocks: []*ssa.BasicBlock{b}, Target: isReturn, Barrier: CallsTo(refuse)}, "a connection that cannot be queued is refused")
+				}
+			}
+		}
+	})
+}
+
+// C13.10: when 0-RTT is rejected, every 0-RTT packet is taken out of the sent-packet history (not only out of the
+// bytes-in-flight count): a packet left there is later declared lost and its frames are retransmitted in 1-RTT — data
+// the server never accepted on streams that were reset.
+func c13Rejected0RTTRemoved(c *Ctx) {
+	const R = "C13.10"
+	f := c.fn(ah, "sentPacketHandler", "DropPackets")
+	rm := c.obj(ah, "sentPacketHistory", "Remove")
+	rbf := c.obj(ah, "sentPacketHandler", "removeFromBytesInFlight")
+	n := 0
+	encLvl := c.fld(ah, "packet", "EncryptionLevel")
+	for _, g := range withAnon(f) {
+		// only the 0-RTT branch: the loop body that looks at the packet's encryption level (the Initial / Handshake
+		// branch drops the whole packet number space afterwards)
+		if countInstr(g, func(x ssa.Instruction) bool { v := valueOf(x); return v != nil && loadsPath(v, encLvl) }) == 0 {
+			continue
+		}
+		for _, in := range findInstrsLocal(g, CallsTo(rbf)) {
+			in := in
+			n++
+			ok := (&Cut{Fn: g, Start: func(x ssa.Instruction) bool { return x == in }, Target: isReturn, Barrier: CallsTo(rm), NoInline: true}).Run() == nil
+			c.Check(ok, R, fmt.Sprintf("remove:a dropped 0-RTT packet leaves the history#%d", n), c.P.InstrPos(in),
+				"removeFromBytesInFlight without history.Remove leaves the packet to loss detection: its frames come back as 1-RTT retransmissions after the rejection")
+		}
+	}
+	c.Floor(R, "removeFromBytesInFlight calls in DropPackets", n, 1)
+}
+
 // valueOf: the instruction as a value (nil if it is not one).
 func valueOf(in ssa.Instruction) ssa.Value {
 	v, _ := in.(ssa.Value)
